@@ -362,6 +362,12 @@ type zebraClient struct {
 	pathVrfMu    sync.RWMutex
 	mplsLabel    mplsLabelParameter
 	dead         chan struct{}
+	stopOnce     sync.Once
+}
+
+// stop ends the loop; the loop closes the connection to zebra on its way out.
+func (z *zebraClient) stop() {
+	z.stopOnce.Do(func() { close(z.dead) })
 }
 
 func (z *zebraClient) getPathListWithNexthopUpdate(body *zebra.NexthopUpdateBody) []*table.Path {
